@@ -542,3 +542,115 @@ func init() {
 		return ex.tt.BV(^uint64(0), 64)
 	})
 }
+
+// ---- json.Decoder, reflect (UnmarshalChain), net/url, generic Marshal recording
+
+type urlObj struct{ src *Term }
+
+func init() {
+	intercepts["bytes.NewReader"] = func(ex *Exec, fr *Frame, a []Value, s ssa.Instruction) Value {
+		return ex.opaquePtr("bytes.Reader", ex.bytesOf(a[0]))
+	}
+	intercepts["encoding/json.NewDecoder"] = func(ex *Exec, fr *Frame, a []Value, s ssa.Instruction) Value {
+		iv := a[0].(*IfaceV)
+		rd := ex.opaqueOf(iv.v, "bytes.Reader")
+		return ex.opaquePtr("json.Decoder", rd.data)
+	}
+	intercepts["(*encoding/json.Decoder).DisallowUnknownFields"] = func(ex *Exec, fr *Frame, a []Value, s ssa.Instruction) Value {
+		return nil
+	}
+	intercepts["(*encoding/json.Decoder).Decode"] = func(ex *Exec, fr *Frame, a []Value, s ssa.Instruction) Value {
+		d := ex.opaqueOf(a[0], "json.Decoder")
+		return ex.jsonUnmarshal(d.data.(*BytesV), a[1].(*IfaceV))
+	}
+	// reflect: only what util.UnmarshalChain uses
+	intercepts["reflect.ValueOf"] = func(ex *Exec, fr *Frame, a []Value, s ssa.Instruction) Value {
+		return &OpaqueV{kind: "reflect.Value", data: a[0]}
+	}
+	intercepts["(reflect.Value).IsNil"] = func(ex *Exec, fr *Frame, a []Value, s ssa.Instruction) Value {
+		iv := a[0].(*OpaqueV).data.(*IfaceV)
+		if iv.typ == nil {
+			return ex.tt.Bool(true)
+		}
+		return ex.isNilValue(iv.v)
+	}
+	intercepts["(reflect.Value).Elem"] = func(ex *Exec, fr *Frame, a []Value, s ssa.Instruction) Value {
+		iv := a[0].(*OpaqueV).data.(*IfaceV)
+		return &OpaqueV{kind: "reflect.Elem", data: iv}
+	}
+	intercepts["(reflect.Value).Type"] = func(ex *Exec, fr *Frame, a []Value, s ssa.Instruction) Value {
+		o := a[0].(*OpaqueV)
+		iv := o.data.(*IfaceV)
+		t := iv.typ
+		if o.kind == "reflect.Elem" {
+			t = t.Underlying().(*types.Pointer).Elem()
+		}
+		return &IfaceV{typ: ex.P.errorStringType(), v: &OpaqueV{kind: "reflect.Type", data: t}}
+	}
+	intercepts["reflect.Zero"] = func(ex *Exec, fr *Frame, a []Value, s ssa.Instruction) Value {
+		t := a[0].(*IfaceV).v.(*OpaqueV).data.(types.Type)
+		return &OpaqueV{kind: "reflect.Zero", data: t}
+	}
+	intercepts["(reflect.Value).Set"] = func(ex *Exec, fr *Frame, a []Value, s ssa.Instruction) Value {
+		dst := a[0].(*OpaqueV)
+		src := a[1].(*OpaqueV)
+		if dst.kind != "reflect.Elem" || src.kind != "reflect.Zero" {
+			panic(ex.unsupported("reflect.Value.Set beyond Elem().Set(Zero(..))"))
+		}
+		iv := dst.data.(*IfaceV)
+		ex.store(ex.ptr(iv.v), ex.zero(src.data.(types.Type)))
+		return nil
+	}
+	intercepts["net/url.Parse"] = func(ex *Exec, fr *Frame, a []Value, s ssa.Instruction) Value {
+		tt := ex.tt
+		ex.H.noteStub("net/url.Parse: uninterpreted scheme/host/path projections; failure nondeterministic")
+		v := a[0].(*Term)
+		call := s.(*ssa.Call)
+		pt := call.Call.Value.(*ssa.Function).Signature.Results().At(0).Type()
+		ut := pt.(*types.Pointer).Elem()
+		if !ex.branch(tt.UF("url_valid", SBool, v), "url-parses") {
+			return &TupleV{vs: []Value{&PtrV{typ: pt}, ex.opaqueErr("url: parse error")}}
+		}
+		u := ex.newStruct(ut)
+		ex.fset(u, ut, "Scheme", tt.UF("url_scheme", SString, v))
+		ex.fset(u, ut, "Host", tt.UF("url_host", SString, v))
+		ex.fset(u, ut, "Path", tt.UF("url_path", SString, v))
+		ex.fset(u, ut, "Opaque", v) // carries the source text for String()
+		return &TupleV{vs: []Value{u, nilErr()}}
+	}
+	intercepts["(*net/url.URL).String"] = func(ex *Exec, fr *Frame, a []Value, s ssa.Instruction) Value {
+		p := ex.ptr(a[0])
+		sv := ex.peek(p).(*StructV)
+		return ex.tt.UF("url_string", SString, sv.fs[1].(*Term))
+	}
+	intercepts["strings.TrimPrefix"] = func(ex *Exec, fr *Frame, a []Value, s ssa.Instruction) Value {
+		x, p := a[0].(*Term), a[1].(*Term)
+		if xs, ok := x.StrVal(); ok {
+			if ps, ok := p.StrVal(); ok {
+				return ex.tt.Str(strings.TrimPrefix(xs, ps))
+			}
+		}
+		if ps, ok := p.StrVal(); ok {
+			if r, ok := stripPrefix(ex.tt, x, ps); ok {
+				return r
+			}
+			ex.H.noteStub("strings.TrimPrefix (uninterpreted on symbolic input)")
+			return ex.tt.UF("trimprefix_"+sanitize(ps), SString, x)
+		}
+		panic(ex.unsupported("strings.TrimPrefix with symbolic prefix"))
+	}
+	vx("Unmarshalled", func(ex *Exec, fr *Frame, a []Value, s ssa.Instruction) Value {
+		b := ex.bytesOf(a[0])
+		if v, ok := ex.W.marshalledAny[b.s.id]; ok {
+			return v
+		}
+		return &IfaceV{}
+	})
+	vx("UrlScheme", func(ex *Exec, fr *Frame, a []Value, s ssa.Instruction) Value { return ex.tt.UF("url_scheme", SString, a[0].(*Term)) })
+	vx("UrlHost", func(ex *Exec, fr *Frame, a []Value, s ssa.Instruction) Value { return ex.tt.UF("url_host", SString, a[0].(*Term)) })
+	vx("UrlPath", func(ex *Exec, fr *Frame, a []Value, s ssa.Instruction) Value { return ex.tt.UF("url_path", SString, a[0].(*Term)) })
+	vx("UrlString", func(ex *Exec, fr *Frame, a []Value, s ssa.Instruction) Value { return ex.tt.UF("url_string", SString, a[0].(*Term)) })
+	vx("UrlValid", func(ex *Exec, fr *Frame, a []Value, s ssa.Instruction) Value { return ex.tt.UF("url_valid", SBool, a[0].(*Term)) })
+	vx("JsonValid", func(ex *Exec, fr *Frame, a []Value, s ssa.Instruction) Value { return ex.tt.UF("jvalid_any", SBool, a[0].(*Term)) })
+	vx("JsonOfString", func(ex *Exec, fr *Frame, a []Value, s ssa.Instruction) Value { return ex.tt.UF("jenc_string", SString, a[0].(*Term)) })
+}
